@@ -70,6 +70,7 @@ structure CacheFacts where
   evict : EvictCmp
   keyIsShaOfText : Bool
   missWithoutQueryIsNotFound : Bool
+  planErrorNotStored : Bool      -- a planner error returns before anything is stored
 deriving DecidableEq, Repr
 
 structure BatchFacts where
